@@ -33,7 +33,12 @@ CHECKS = {
               "generators (SolveUnc real / complex / cd_as_force, SolveCDF, SolveExp2; order 0/1; rb/el/rf blocks; m None/vector/"
               "matrix; zero, d0/v0, static ic) and after EVERY action ts._force (exactly), d and v (all columns incl. the stale ones "
               "the spec predicts) are compared with the terms interpreted by the batch solver's two-sample tsolve; finalize() d,v,a "
-              "vs batch tsolve; get_f2x vs measured unit add-on increments (order 1)."),
+              "vs batch tsolve; get_f2x vs measured unit add-on increments (order 1). Growth (specs/OdeReuse.tla): ONE solver object used "
+              "for a history of public calls (tsolve / fsolve / complete generator session / get_f2x; hidden slots modelled by their last "
+              "writer, NoStaleRead checked by TLC on every history of length 3, thorough 4); every history is replayed on SolveUnc (diag, "
+              "complex-eigenvalue path with conjugate-pair bookkeeping, cd_as_force), SolveCDF, SolveExp2, SolveNewmark with a nonlinear "
+              "term and FreqDirect: each call's result must be bit-identical to the same call on a fresh object, and results handed out "
+              "earlier must not be modified by later calls."),
         ref="4/C08",
         note=("Trusted: TLC; the batch solver as oracle for Step (the property's own oracle); tolerance 1e-9 relative to the history norm. "
               "Quick replays a seeded sample of maximal histories per configuration, thorough replays 200 per configuration of the larger model."),
